@@ -69,6 +69,23 @@ type c18Tmpl struct {
 	Own  bool     `json:"own"` // template text carries an ownerReference
 	Env  bool     `json:"env"` // template prints .environment.kubernetes.version
 	Refs []c18Ref `json:"refs"`
+	// Sw (optional): kind / namespace / ownerReferences of the RENDERED object depend on a source value
+	Sw *c18Sw `json:"sw,omitempty"`
+}
+
+// c18Sw makes parts of the rendered manifest's identity TEMPLATE OUTPUT: while the config value at
+// key D (as copied from the sources) equals V, the manifest is rendered with another kind, another
+// metadata.namespace and / or an ownerReference, e.g.
+//
+//	kind: {{ if $sw }}CK{{ else }}NK{{ end }}
+//
+// The ObjectTemplate itself (spec, generation) is the same whatever the sources say.
+type c18Sw struct {
+	D    string `json:"d"`
+	V    string `json:"v"`
+	Kind string `json:"kind"` // kind while on ("" = the template's Kind)
+	NS   string `json:"ns"`   // metadata.namespace while on: "=" = the template's NS, "" = line absent
+	Own  bool   `json:"own"`  // while on the manifest carries an ownerReference
 }
 
 type c18KV struct {
@@ -162,22 +179,68 @@ func c18ItemKey(it c18Item) string {
 	}
 }
 
+// c18Switches: what the rendered object turns into while config key d holds v — the inadmissible
+// identities of each flavour and a few admissible ones (the target just moves).
+func c18Switches(cluster bool, d, v string) []c18Sw {
+	sw := func(kind, ns string, own bool) c18Sw { return c18Sw{D: d, V: v, Kind: kind, NS: ns, Own: own} }
+	if cluster {
+		return []c18Sw{
+			sw("UK", "=", false),         // no such API
+			sw("", "", false),            // namespaced kind without namespace: no default for a cluster template
+			sw("", "=", true),            // brings its own ownerReferences
+			sw("CK", "", false),          // legal for a ClusterObjectTemplate: the target moves
+			sw("NK2", c18OtherNS, false), // legal: other kind, other namespace
+		}
+	}
+	return []c18Sw{
+		sw("CK", "=", false),        // cluster-scoped kind (namespace line as written)
+		sw("CK", "", false),         // cluster-scoped kind, no namespace
+		sw("", c18OtherNS, false),   // another namespace
+		sw("CK", c18OtherNS, false), // both
+		sw("UK", "=", false),        // no such API
+		sw("", "=", true),           // brings its own ownerReferences
+		sw("NK2", "=", false),       // legal: the target moves to another namespaced kind
+		sw("", c18TmplNS, false),    // legal: namespace spelled out
+	}
+}
+
+const c18OwnerRefText = "  ownerReferences:\n  - apiVersion: v1\n    kind: ConfigMap\n    name: x\n    uid: u-x\n"
+
 func c18TemplateText(t c18Tmpl) string {
 	var b strings.Builder
+	sw := t.Sw
+	if sw != nil {
+		// (print of a missing key gives "<nil>", never a value of the family)
+		fmt.Fprintf(&b, "{{ $sw := eq (print (index .config %q)) %q }}\n", sw.D, sw.V)
+	}
 	b.WriteString("apiVersion: " + c18Group + "/v1\n")
 	switch t.Form {
 	case "nokind":
 	case "yaml":
 		b.WriteString("kind: [" + t.Kind + "\n")
 	default:
-		b.WriteString("kind: " + t.Kind + "\n")
+		if sw != nil && sw.Kind != "" {
+			b.WriteString("kind: {{ if $sw }}" + sw.Kind + "{{ else }}" + t.Kind + "{{ end }}\n")
+		} else {
+			b.WriteString("kind: " + t.Kind + "\n")
+		}
 	}
 	b.WriteString("metadata:\n  name: t\n")
-	if t.NS != "" {
-		b.WriteString("  namespace: " + t.NS + "\n")
+	nsLine := func(ns string) string {
+		if ns == "" {
+			return ""
+		}
+		return "  namespace: " + ns
+	}
+	if sw != nil && sw.NS != "=" {
+		b.WriteString("{{ if $sw }}" + nsLine(sw.NS) + "{{ else }}" + nsLine(t.NS) + "{{ end }}\n")
+	} else if t.NS != "" {
+		b.WriteString(nsLine(t.NS) + "\n")
 	}
 	if t.Own {
-		b.WriteString("  ownerReferences:\n  - apiVersion: v1\n    kind: ConfigMap\n    name: x\n    uid: u-x\n")
+		b.WriteString(c18OwnerRefText)
+	} else if sw != nil && sw.Own {
+		b.WriteString("{{ if $sw }}" + c18OwnerRefText + "{{ end }}\n")
 	}
 	if !t.Env && len(t.Refs) == 0 {
 		b.WriteString("data: {}\n")
@@ -290,6 +353,21 @@ type c18World struct {
 	handler *dynamiccache.EnqueueWatchingObjects
 	tkey    verifstore.Key
 	req     ctrl.Request
+	env     string // environment last pushed into the controller's sink
+}
+
+// startProcess builds the controller by its real constructor on the current cache: everything a
+// previous controller held in memory is gone.  The environment manager pushes the environment into
+// the new process' sink again.
+func (w *c18World) startProcess() {
+	cl := w.store.Client()
+	cfg := ControllerConfig{OptionalResourceRetryInterval: 7 * time.Second, ResourceRetryInterval: 11 * time.Second}
+	if w.scn.Cluster {
+		w.ctl = NewClusterObjectTemplateController(cl, cl, logr.Discard(), w.cache, w.scheme, w.store.Mapper(), cfg)
+	} else {
+		w.ctl = NewObjectTemplateController(cl, cl, logr.Discard(), w.cache, w.scheme, w.store.Mapper(), cfg)
+	}
+	w.setEnv(w.env)
 }
 
 func c18Build(s c18Scn) *c18World {
@@ -304,8 +382,8 @@ func c18Build(s c18Scn) *c18World {
 	w.store.RegisterKind(schema.GroupKind{Group: pg, Kind: "ObjectSet"}, true)
 	w.cache = &c18Cache{Cache: w.store.NewCache(), scheme: w.scheme,
 		refs: map[schema.GroupVersionKind]map[dynamiccache.OwnerReference]struct{}{}}
-	cl := w.store.Client()
-	cfg := ControllerConfig{OptionalResourceRetryInterval: 7 * time.Second, ResourceRetryInterval: 11 * time.Second}
+	w.env = s.Env
+	w.startProcess()
 
 	var sources []corev1alpha1.ObjectTemplateSource
 	for _, src := range s.Srcs {
@@ -321,19 +399,16 @@ func c18Build(s c18Scn) *c18World {
 	var obj client.Object
 	var watcherType client.Object
 	if s.Cluster {
-		w.ctl = NewClusterObjectTemplateController(cl, cl, logr.Discard(), w.cache, w.scheme, w.store.Mapper(), cfg)
 		obj = &corev1alpha1.ClusterObjectTemplate{ObjectMeta: metav1.ObjectMeta{Name: c18Name}, Spec: spec}
 		watcherType = &corev1alpha1.ClusterObjectTemplate{}
 		w.tkey = verifstore.Key{Group: pg, Kind: "ClusterObjectTemplate", Name: c18Name}
 		w.req = ctrl.Request{NamespacedName: types.NamespacedName{Name: c18Name}}
 	} else {
-		w.ctl = NewObjectTemplateController(cl, cl, logr.Discard(), w.cache, w.scheme, w.store.Mapper(), cfg)
 		obj = &corev1alpha1.ObjectTemplate{ObjectMeta: metav1.ObjectMeta{Name: c18Name, Namespace: c18TmplNS}, Spec: spec}
 		watcherType = &corev1alpha1.ObjectTemplate{}
 		w.tkey = verifstore.Key{Group: pg, Kind: "ObjectTemplate", Namespace: c18TmplNS, Name: c18Name}
 		w.req = ctrl.Request{NamespacedName: types.NamespacedName{Name: c18Name, Namespace: c18TmplNS}}
 	}
-	w.setEnv(s.Env)
 	m, err := runtime.DefaultUnstructuredConverter.ToUnstructured(obj)
 	if err != nil {
 		panic(err)
@@ -365,6 +440,7 @@ func c18Build(s c18Scn) *c18World {
 }
 
 func (w *c18World) setEnv(v string) {
+	w.env = v
 	w.ctl.SetEnvironment(&manifests.PackageEnvironment{Kubernetes: manifests.PackageEnvironmentKubernetes{Version: v}})
 }
 
@@ -628,7 +704,10 @@ func c18Exec(s c18Scn) string {
 			w.store.Remove(w.tkey)
 			outs = append(outs, "E")
 		case "restart":
+			// a new operator process: the dynamic cache's registrations AND whatever the controller
+			// kept in memory are gone; the API objects are all that survives
 			w.cache.Restart()
+			w.startProcess()
 			outs = append(outs, "E")
 		case "setenv":
 			w.setEnv(st.V)
@@ -659,6 +738,9 @@ func c18Tags(s c18Scn, out string) []string {
 	}
 	add(fmt.Sprintf("srcs=%d", len(s.Srcs)))
 	add("form=" + s.Tmpl.Form)
+	if s.Tmpl.Sw != nil {
+		add("sw")
+	}
 	nrec := 0
 	for _, st := range s.Steps {
 		add("op=" + st.Op)
@@ -825,6 +907,15 @@ func c18Random(rng *rand.Rand) c18Scn {
 			d = dests[rng.Intn(len(dests))]
 		}
 		t.Refs = append(t.Refs, c18Ref{D: d, Strict: rng.Intn(3) != 0})
+	}
+	if rng.Intn(6) == 0 { // identity of the rendered object depends on a source value
+		d := pick("a", "b", "c")
+		if len(dests) > 0 {
+			d = dests[rng.Intn(len(dests))]
+		}
+		sws := c18Switches(s.Cluster, d, pick("x1", "x1", "x2"))
+		sw := sws[rng.Intn(len(sws))]
+		t.Sw = &sw
 	}
 	s.Tmpl = t
 	// history: most sources exist (unlabelled, as a user would create them) before the first pass
